@@ -2,10 +2,14 @@
    PARTIAL: the theorems hold for ALL wages and ALL parameters satisfying [cond] for the closed
    forms; that the regenerated rule chain equals the closed form is checked by vm_compute on a
    stated finite grid of wages per date class (every statutory boundary +-1 cent and a lattice),
-   for pension and unemployment insurance; health and long-term care insurance (more variants)
-   are covered by the implementation sweeps only. *)
+   for pension and unemployment insurance.
+   ALL WAGES, ALL FOUR INSURANCES (below, C19_all_wages): the chains of the real graph are evaluated
+   symbolically in the wage (AffEval, sound for every wage of a piece), and the shape is decided on the
+   affine pieces (AffShape); the remaining bound is the finite set of discrete configurations
+   (region x children x age) in ChkC19Aff.configs. *)
 From Coq Require Import ZArith QArith Qcanon Bool.
-From GettsimModel Require Import Num Contrib.
+From Coq Require Import String List.
+From GettsimModel Require Import Num Val Ast Eval PolicyEnv Dag Scalar Contrib AffEval AffShape ChkC19Aff.
 Open Scope Qc_scope.
 
 Theorem C19_nonneg : forall r C F G U w, cond r C F G U -> 0 <= w -> 0 <= employee_new r C F G U w.
@@ -46,3 +50,45 @@ Print Assumptions C19_old_zone_shares_sum.
 Theorem C19_conditions_reflect : forall r C F G U, cond_b r C F G U = true -> cond r C F G U.
 Proof. exact cond_b_sound. Qed.
 Print Assumptions C19_conditions_reflect.
+
+(* ---- all wages, on the model evaluator of the real rule chains ---- *)
+
+(* symbolic evaluation in the wage is exact: whenever it returns s on an interval, the scalar evaluation of
+   the regenerated rule chain over the real graph (statutory rounding on) returns conc w s for EVERY w of it *)
+Theorem C19_symbolic_evaluation_sound : forall S ft P rounding Iv sinp w, inI Iv w ->
+  forall fuel name s, sym_seval S ft P rounding Iv sinp fuel name = Some s ->
+  seval S ft P rounding (conc_env w sinp) fuel name = Ok (conc w s).
+Proof. exact sym_seval_sound. Qed.
+Print Assumptions C19_symbolic_evaluation_sound.
+
+(* a graph accepted by the checker (an obligation per dumped date >= 2015): for every configuration
+   (east / west, 0..6 children, age 20 / 35), each of the four insurances and EVERY gross wage w >= 0:
+   the employee contribution is defined and non-negative, non-decreasing in the wage, zero up to the
+   marginal-employment threshold G, constant from the assessment ceiling on, every affine piece touching
+   the upper boundary U of the transition zone takes there the value of the contribution at U (no jump:
+   the reduced contribution meets the regular one), and within the zone (G, U] employee share + employer
+   share = total contribution *)
+Theorem C19_all_wages : forall S ft P, c19_aff_ok S ft P = true ->
+  forall cfg an ag tot ceil, In cfg configs -> In (an, ag, tot, ceil) branches ->
+  let Fc := fun cfg => F S ft P (base_inputs cfg) wage_name in
+  (0 < G_of S ft P cfg /\ G_of S ft P cfg < U_of P) /\
+  (forall w, 0 <= w -> exists y, Fc cfg an w = Some y /\ 0 <= y) /\
+  (forall w1 w2, 0 <= w1 -> w1 <= w2 -> exists y1 y2, Fc cfg an w1 = Some y1 /\ Fc cfg an w2 = Some y2 /\ y1 <= y2) /\
+  (forall w, 0 <= w -> w <= G_of S ft P cfg -> Fc cfg an w = Some 0) /\
+  (forall w, 0 <= w -> node0 S ft P cfg ceil <= w -> Fc cfg an w = Some (val_at (Fc cfg) an (node0 S ft P cfg ceil))) /\
+  (exists ps, described (Fc cfg an) ps /\ Fc cfg an (U_of P) = Some (val_at (Fc cfg) an (U_of P)) /\
+      forall Iv f, In (Iv, f) ps -> touches Iv (U_of P) = true -> ev f (U_of P) = val_at (Fc cfg) an (U_of P)) /\
+  (forall w, 0 <= w -> G_of S ft P cfg < w -> w <= U_of P ->
+     exists y1 y2 y3, Fc cfg an w = Some y1 /\ Fc cfg ag w = Some y2 /\ Fc cfg tot w = Some y3 /\ y1 + y2 = y3).
+Proof. exact c19_aff_sound. Qed.
+Print Assumptions C19_all_wages.
+
+(* the shape theorems used above, for any function described by affine pieces *)
+Theorem C19_pieces_monotone : forall F ps, described F ps -> adjacent ps = true -> mono_pieces ps = true ->
+  forall w1 w2, first_lower ps w1 -> w1 <= w2 -> exists y1 y2, F w1 = Some y1 /\ F w2 = Some y2 /\ y1 <= y2.
+Proof. exact shape_monotone. Qed.
+Print Assumptions C19_pieces_monotone.
+
+Theorem C19_pieces_cover : forall ps, adjacent ps = true -> forall w, first_lower ps w -> exists Iv f, In (Iv, f) ps /\ inI Iv w.
+Proof. exact cover. Qed.
+Print Assumptions C19_pieces_cover.
